@@ -56,11 +56,15 @@ static int run_case(const struct ecimpl *im, int len, int k, int rows, int soff,
 		memset(dst[r], 0xAA, len);
 	}
 	v_pcall_mode = 1 + (len & 1); /* kernel entered with poisoned caller-saved registers (engine/pcall.S) */
+	/* the pointer ARRAYS are exactly k and rows entries long and end at an inaccessible page as well */
+	uint8_t **srcv = g_alloc(k * sizeof(uint8_t *), G_END), **dstv = g_alloc(rows * sizeof(uint8_t *), G_END);
+	memcpy(srcv, src, k * sizeof(uint8_t *));
+	memcpy(dstv, dst, rows * sizeof(uint8_t *));
 	if (V_TRY()) {
 		switch (im->kind) {
-		case K_DP1: PCALL(im->fn, len, k, tbl, src, dst[0]); break;
-		case K_DPN: PCALL(im->fn, len, k, tbl, src, dst); break;
-		default: PCALL(im->fn, len, k, rows, tbl, src, dst); break;
+		case K_DP1: PCALL(im->fn, len, k, tbl, srcv, dst[0]); break;
+		case K_DPN: PCALL(im->fn, len, k, tbl, srcv, dstv); break;
+		default: PCALL(im->fn, len, k, rows, tbl, srcv, dstv); break;
 		}
 		V_END();
 	} else {
